@@ -32,6 +32,8 @@
                            band; equal to it once the reader has seen the end of the band
       Conservation         written = received ++ in the reader goroutine's hand ++ still buffered
       SendStopHasError     sendStop closed => sendError set (a stopped Put never returns nil)
+      GoneBeforeClose      the read end of a link's pipe is closed only after readerGone was stored (a writer
+                           that gets EPIPE / SIGPIPE finds readerGone set)
       ReaderGoneOnlyIfReaderExited  a stage gets ReaderGone only after its reader's form has returned
       ReaderGoneSilent     the composed exception lists exactly the stages whose exception is not a
                            ReaderGone with a piped output, in stage order
@@ -271,6 +273,7 @@ Conservation ==
                    /\ gh.sentB[i] = gh.gotB[i+1] \o sg[i+1].handB \o lk[i].pipe
                    /\ Len(lk[i].chan) <= Cap /\ Len(lk[i].pipe) <= PCap
 SendStopHasError == \A i \in Links : (lk[i].sendStop => lk[i].sendErr) /\ (lk[i].readerGone => lk[i].sendStop)
+GoneBeforeClose == \A i \in Links : lk[i].rClosed => lk[i].readerGone
 ReaderGoneOnlyIfReaderExited == \A i \in Links : sg[i].exc = "readergone" => sg[i+1].st # "run"
 ExcOf(s) == IF sg[s].exc = "readergone" /\ s < N THEN "none" ELSE sg[s].exc
 ReaderGoneSilent == Final => result.excs = Reported([s \in Stages |-> ExcOf(s)])
